@@ -51,7 +51,10 @@ def recipe(ctx, fn, writer_names, adt):
         if t['k'] != 'call':
             continue
         c = callee_of(t)
-        if not c or last_seg(strip_generics(c['path'])) not in writer_names or len(t['args']) < 2:
+        name = last_seg(strip_generics(c['path'])) if c else ''
+        import re
+        mput = re.match(r'put_([ui](?:8|16|32|64|128))(_le|_ne)?$', name) if 'put_slice' in writer_names else None
+        if not c or (name not in writer_names and not mput) or len(t['args']) < 2:
             continue
         _, atoms = du.slice_operand(t['args'][1])
         fields = []
@@ -61,6 +64,10 @@ def recipe(ctx, fn, writer_names, adt):
         enc = sorted({last_seg(strip_generics(a[2])) for a in atoms if a[0] == 'call' and 'to_' in last_seg(strip_generics(a[2])) and 'bytes' in a[2]})
         width = sorted({a[2].split('impl ')[-1].split('>')[0] for a in atoms if a[0] == 'call' and 'bytes' in a[2] and 'impl ' in a[2]})
         path = '.'.join(n for (ad, n) in sorted(fields, key=lambda x: 0 if x[0] == adt else 1))
+        if mput:
+            # BufMut::put_u32(x) == write(&x.to_be_bytes()); the _le / _ne forms are different encodings
+            enc = [{None: 'to_be_bytes', '_le': 'to_le_bytes', '_ne': 'to_ne_bytes'}[mput.group(2)]]
+            width = [mput.group(1)]
         out.append([path, '/'.join(enc), '/'.join(width)])
     return out
 
@@ -326,11 +333,13 @@ def pagesize_refusal(ctx, rule='C15.pagesize-refusal'):
                 continue
             nsel += 1
             okk = True
+            vedges = c12._valid_edges(ctx, fn)
             for h in du.roots_of(l):
-                this = False
-                for (cb, match_t, hs) in cmps:
-                    if h in hs and match_t is not None and bb not in fn.reach_from([0], avoid_edges={(cb, match_t)}):
-                        this = True
+                # paths on which this header failed its validity test cannot end in its selection (C12.select-total decides that), so they are cut as well:
+                # `if valid1 { assert pagesize }` followed by the match is then recognised as a check on every feasible path
+                invalid = {(vb, x) for (vb, vt, hs) in vedges if h in hs for x in fn.succ(vb) if x != vt}
+                match_edges = {(cb, match_t) for (cb, match_t, hs) in cmps if h in hs and match_t is not None}
+                this = bool(match_edges) and bb not in fn.reach_from([0], avoid_edges=match_edges | invalid)
                 okk = okk and this
             if okk:
                 res.append(ok(rule, 'header selected at %s only behind a page-size comparison whose mismatch edge does not return' % fn.loc(bb, si), sites=1))
@@ -358,6 +367,8 @@ def run(ctx, tier):
     results += c16.no_pow2_arith(ctx, rule='C15.no-pow2-arith')
     results += c05.serialiser_total(ctx, rule='C15.serialiser-total')
     results += c05.reader_writer_tables(ctx, rule='C15.reader-writer-tables')
+    import c02
+    results += c02.reload_rule(ctx, rule='C15.reload')
     return dict(
         results=results, stats=dict(ctx.stats),
         explanation=(
